@@ -314,6 +314,24 @@ static void runHistory(vh::Rng &r, const vh::Args &a, long kbase, const std::str
     delete router;
 }
 
+// Does the line through two opposite corners of some 4-gon pass through another vertex of the scene (a corner of another
+// shape or a connector endpoint)?  Then a visibility edge can run through the shape's interior along its diagonal, which
+// libavoid accepts as visible also with Lee's sweep (known finding C03-lee-collinear: the route cuts through the shape).
+// The corner classes leave this sub-family out.
+static bool diagonalAligned(const std::vector<vs::DPoly> &shapes, const std::vector<ConnSpec> &cs) {
+    std::vector<LPt> pts; std::vector<size_t> owner;
+    for (size_t i = 0; i < shapes.size(); ++i) for (auto &v : shapes[i]) { pts.push_back(toL(v.x, v.y)); owner.push_back(i); }
+    for (auto &c : cs) { pts.push_back(toL(c.sx, c.sy)); owner.push_back(shapes.size()); pts.push_back(toL(c.dx, c.dy)); owner.push_back(shapes.size()); }
+    for (size_t i = 0; i < shapes.size(); ++i) {
+        if (shapes[i].size() != 4) continue;
+        for (int d = 0; d < 2; ++d) {
+            LPt a = toL(shapes[i][d].x, shapes[i][d].y), b = toL(shapes[i][d + 2].x, shapes[i][d + 2].y);
+            for (size_t q = 0; q < pts.size(); ++q) if (owner[q] != i && area2L(a, b, pts[q]) == 0) return true;
+        }
+    }
+    return false;
+}
+
 int main(int argc, char **argv) {
     vh::Args a = vh::parseArgs(argc, argv);
     bool thorough = (a.tier == "thorough");
@@ -621,6 +639,7 @@ int main(int argc, char **argv) {
             if (!okp) continue;
             ConnSpec c2 = cn; c2.id = 102; std::swap(c2.sx, c2.dx); std::swap(c2.sy, c2.dy);
             cs.push_back(cn); cs.push_back(c2);
+            if (diagonalAligned(s.shapes, cs)) { cs.clear(); continue; }
             std::vector<OracleRes> orc = emitOracle(s.shapes, cs, penalty, false);
             through = orc[0].throughCorner || orc[1].throughCorner;
         }
@@ -634,7 +653,7 @@ int main(int argc, char **argv) {
     //      no bend at v, while the other way round Rp (via another corner q of Rp) reaches v earlier but pays a bend at v:
     //      the state (T, via v) is queued first from (v, via q) and later improved in place from (v, via p).  The source
     //      lies beyond Rp; 0..3 further random rectangles supply competing routes.  Both directions are routed.
-    long ncc = (thorough ? 900 : 300) * a.scale;
+    long ncc = (thorough ? 1500 : 600) * a.scale;
     for (long c = 0; c < ncc; ++c, ++k) {
         if (!a.want(k)) continue;
         vh::Rng r0 = vh::caseRng(a.seed, k, 31);
@@ -666,6 +685,24 @@ int main(int argc, char **argv) {
             // by less than the penalty
             long tx = 0, ty = 0;
             if (r.coin(1, 3)) { tx = -da * r.range(0, 1); ty = -db * r.range(0, 1); }
+            // variant "two corners on the line" (every other time): a third rectangle Rw with a corner w on the line at the
+            // origin, and the target in the shadow Rw casts as seen from v: the collinear chain is p - v - w, the state
+            // improved in place is the inner state (w, via v), not a target state
+            if (r.coin(1, 2)) {
+                B bw; cornerBox(0, 0, side, bw);
+                std::vector<LPt> rw; rw.push_back(LPt{bw.x1, bw.y0}); rw.push_back(LPt{bw.x1, bw.y1}); rw.push_back(LPt{bw.x0, bw.y1}); rw.push_back(LPt{bw.x0, bw.y0});
+                std::vector<std::pair<long, long> > ct;
+                for (long x = bw.x0 - 3; x <= bw.x1 + 3; ++x) for (long y = bw.y0 - 3; y <= bw.y1 + 3; ++y) {
+                    if (x >= bw.x0 && x <= bw.x1 && y >= bw.y0 && y <= bw.y1) continue;
+                    if (!segHitsInteriorL(rw, LPt{x, y}, LPt{vx, vy})) continue;
+                    if (segHitsInteriorL(rw, LPt{x, y}, LPt{0, 0})) continue;
+                    ct.push_back(std::make_pair(x, y));
+                }
+                if (ct.empty()) continue;
+                std::pair<long, long> tp = r.pick(ct);
+                tx = tp.first; ty = tp.second;
+                bs.push_back(bw);
+            }
             std::vector<LPt> rp; rp.push_back(LPt{bp.x1, bp.y0}); rp.push_back(LPt{bp.x1, bp.y1}); rp.push_back(LPt{bp.x0, bp.y1}); rp.push_back(LPt{bp.x0, bp.y0});
             std::vector<std::pair<long, long> > cand, good; std::vector<double> gap;
             for (long x = bp.x0 - 4; x <= bp.x1 + 6; ++x) for (long y = bp.y0 - 4; y <= bp.y1 + 6; ++y) {
@@ -759,6 +796,7 @@ int main(int argc, char **argv) {
             ConnSpec cn; cn.id = 101; X(sx, sy, cn.sx, cn.sy); X(tx, ty, cn.dx, cn.dy);
             ConnSpec c2 = cn; c2.id = 102; std::swap(c2.sx, c2.dx); std::swap(c2.sy, c2.dy);
             cs.push_back(cn); cs.push_back(c2);
+            if (diagonalAligned(s.shapes, cs)) continue;
             built = true;
         }
         if (!built) { vh::beginCase(k, "empty"); vh::endCase(); continue; }
